@@ -329,6 +329,28 @@ def clm_names(F, S):
     return out
 
 
+def clm_extension_strip(F, S):
+    """R-SIB: the CLM member name is the file name with its extension removed by the path library's own rule
+    (XFile::ChangeFileExtension(x, "")): cutting at the last '.' of the string instead also cuts at a dot in a directory part
+    (`./sounds/beep`), which makes the archive depend on how the input path was spelled."""
+    from ..through import find_calls
+    ca = F.fn(CLM + "::CreateArchive", nparams=2)
+    inst = CLM + "::CreateArchive#extension-strip"
+    req = "extensions are removed with XFile::ChangeFileExtension(name, \"\"), never by cutting the string at a '.'"
+    cf = find_calls(F, ca, lambda nd: (nd.get("fq") or "").endswith("XFile::ChangeFileExtension"), depth=2)
+    cuts = find_calls(F, ca, lambda nd: nd["k"] == "CXXMemberCallExpr" and nd.get("fname") in ("rfind", "find_last_of", "find", "substr", "erase", "resize")
+                      and (nd.get("mrec") or "").startswith("std::basic_string"), depth=2)
+    cuts = [c for c in cuts if c.owner.key != ca.key or True]
+    if not cf and not cuts:
+        raise AnalysisBroken("ClmFile::CreateArchive: how extensions are stripped was not recognised")
+    good = len(cf) >= 1 and all(len(c.args()) == 2 and c.args()[1] in (("str", b""), ("ctor", "std::basic_string<char>", ())) or
+                                (len(c.args()) == 2 and c.args()[1][0] == "ctor" and c.args()[1][2] and c.args()[1][2][0] == ("str", b"")) for c in cf) and not cuts
+    if good:
+        return [ok("R-SIB", inst, ca.loc(cf[0].outer_id()), ca.qn, req, "ChangeFileExtension(x, \"\")")]
+    return [bad("R-SIB", inst, ca.loc((cuts or cf)[0].outer_id()), ca.qn, req,
+                "the name is cut with %s" % ", ".join(sorted({c.node.get("fname") for c in cuts})) if cuts else "ChangeFileExtension is not called with an empty extension")]
+
+
 def frame_layers(F, S):
     fn = F.fn("OP2Utility::ArtFile::WriteFrame", nparams=2)
     eng = Engine(F, S)
